@@ -113,6 +113,12 @@ claim("C19", SIM + "; oracle: bytes reachable from the conversation (object-grap
       "trusted: the walker (reflect+unsafe from outside the package); slack calibrated on the repaired tree (observed jitter < 600 bytes)",
       "DESIGN.md section 5 C19")
 
+claim("C20", SIM + " of a cooperative goroutine scheduler (one goroutine per conversation pair, parked before every API call, PRNG picks who proceeds) + free-running parallel execution under the Go race detector; oracle: transcript equality with the solo run replaying the same clock readings, no mutation of memory already handed to a caller, zero race reports",
+      "3..6 independent conversation pairs (handshake, traffic with rotations, errors, SMP, fragmentation, End/restart). Mode 0: each pair on its own goroutine, a seeded scheduler interleaves their API calls and clock ticks (replayable, shrinkable); every pair's full transcript must equal its solo run and no message returned earlier may change while another pair runs. "
+      "Mode 1: the same pairs free-running on parallel goroutines in a -race build; any race report kills the worker and is reported with the seed; transcripts are compared with the solo runs as well.",
+      "trusted: Go race detector (can miss, cannot invent, a race); harness worlds share no mutable state; mode 1 schedules are not controlled, its findings are reported by seed without a minimised schedule",
+      "DESIGN.md section 5 C20")
+
 _todo = "check not built yet in this session (see DESIGN.md section 12 build order)"
 for pid in [ "C11", "C12", "C13", "C14", "C15", "C16", "C18", "C19", "C20"]:
     NA[pid] = _todo
